@@ -47,7 +47,12 @@ def run(ctx):
     render.opacity_and_mode(ctx)
     import C06 as _c06l
     _c06l.link_resolution(ctx, 'K5')
-    _c06l.layer_opacity_as_stored(ctx, 'K5')   # the layer half of the opacity product is the stored byte of every layer (seed C02-r)       # a linked cel is drawn as its target: offset and opacity too (seed C02-o)
+    _c06l.layer_opacity_as_stored(ctx, 'K5')
+    import C08 as _c08t
+    _c08t.tileset_lookup_by_id(ctx, 'K7')          # a tilemap layer is drawn from the tileset with its id, not the n-th stored one (seed C02-s)
+    import invariants as _inv12
+    ok12_, why12_ = _inv12.Inv(ctx).get('I12')    # every frame has its row of cels, also the trailing blank ones (seed C02-t)
+    ctx.inst('K3', 'cel rows per frame', ok12_, why12_, None, key='asefile::cel::CelsData::new|K3|I12')   # the layer half of the opacity product is the stored byte of every layer (seed C02-r)       # a linked cel is drawn as its target: offset and opacity too (seed C02-o)
     import C07 as _c07f
     # "visible" starts at the layer's flag word: undefined bits in it must not wipe the VISIBLE bit (seed C02-p: from_bits(..).unwrap_or(empty()))
     _c07f.flag_conversions(ctx, 'K4', only=('asefile::layer::parse_chunk',), floor=False)
